@@ -6,7 +6,7 @@ LEVEL = 'exploration'
 INCLUDE = spaces.C02_SIX + ['n_geos_max', 'n_pretest_max', 'n_designs']
 RULE = ('Engine A: complete enumeration of FULL(G<=3) (every eligibility matrix over 7 row types + absent row, x '
         'constraint subsets x n_geos_max) and DEV(4,d)/DEV(5,2) (<= d deviations incl. no matrix / extra matrix geo) '
-        'for both searches; every returned design judged from the RAW eligibility rows: non-empty disjoint groups of '
+        'for both searches; REUSE: DEV(4,1|2) on a data object already used by another matched-markets object; every returned design judged from the RAW eligibility rows: non-empty disjoint groups of '
         'data geos, t/c eligibility, every exclude=0 geo placed, must-exclude/absent geos never used; plus the '
         'documented rule for geos_within_constraints. Non-trivial = >= 1 design returned and (>= 1 non-free row or '
         'admitted set smaller than the data); distinct = distinct case.')
@@ -16,7 +16,9 @@ ASSUMPTIONS = ['values: fixed integer panels A/B (+ seed panel)',
 
 
 def cases(tier, seed):
-    return spaces.family_space(tier, seed, INCLUDE, {'n_designs': 3}, k_values=(1, 50))
+    out = spaces.family_space(tier, seed, INCLUDE, {'n_designs': 3}, k_values=(1, 50))
+    out += spaces.reuse_space({'name': 'B', 'G': 4, 'T': 12}, INCLUDE, {'n_designs': 3}, d=2 if tier == 'thorough' else 1)
+    return out
 
 
 def run_case(case):
